@@ -423,7 +423,11 @@ func (w *apiWorker) op(f []string) (out string) {
 		case "refs.add":
 			err = r.AddBranch(w.root, string(unhx(f[2])), unhx(f[3]))
 		case "refs.rename":
+			// the unit `branch -r` performs: write the new name, (HEAD is switched,) remove the old name
 			err = r.RenameBranch(w.root, string(unhx(f[2])), string(unhx(f[3])))
+			if err == nil {
+				err = r.RemoveRenamedBranch(w.root, string(unhx(f[2])))
+			}
 		case "refs.delete":
 			// DeleteBranch prints a message on stdout: silence it
 			so := os.Stdout
